@@ -146,7 +146,10 @@ func ccFlame(g *ccGates) *flamego.Flame {
 	// which is what makes an append to it by one request visible to another
 	f.Use(func(c flamego.Context) {})
 	f.Use(func(w http.ResponseWriter) {})
-	f.Use(func(r *http.Request) {}) // five Use calls: len 5, cap 8
+	f.Use(func(r *http.Request) {})
+	// the number of Use calls is chosen so that the slice keeps SPARE capacity (append grows 1, 2, 4, 8, 16): nine calls,
+	// len 9, cap 16 - with len == cap every append would copy and a shared backing array could not show
+	f.Use(func() {})
 	// a service mapped on the Flame by its concrete type only; handlers ask for it through an interface, so the first
 	// requests of a round resolve it concurrently in the shared application injector
 	f.Map(&ccSvc{name: "svc"})
